@@ -48,6 +48,13 @@ def cases(tier, seed):
     return out
 
 
+class FalsyError(Exception):
+    """an exception whose truth value is False (e.g. an error collection that happens to be empty)"""
+
+    def __len__(self):
+        return 0
+
+
 def mk(form, ins, fn_log=None):
     F = instr.ME.futures
     if form == "zip":
@@ -126,21 +133,36 @@ def run_order(case, res):
     combos = [(a, o) for a in itertools.product("VEC", repeat=n) for o in itertools.permutations(range(n))]
     if case["sample"] and len(combos) > case["sample"]:
         combos = rng.sample(combos, case["sample"])
-    for assign, order in combos:
+    for ci, (assign, order) in enumerate(combos):
         begin("rt")
         ctx = Ctx()
         try:
             ins = [SpyFuture("in%d" % i) for i in range(n)]
-            out = mk(form, ins)
+            # every fourth combination: the inputs are library futures derived from the harness's ones, and some are
+            # already finished when the function is called
+            wrap = (None, None, None, "map")[ci % 4] if n else None
+            F = instr.ME.futures
+            given = ins if wrap is None else [F.f_map(f, lambda v: v) for f in ins]
             excs = {}
+            if ci % 7 == 3:
+                # the failing inputs fail with exception objects that are falsy
+                for i in range(n):
+                    excs[i] = FalsyError("in%d" % i)
+            pre = (0, 1, n)[(ci // 4) % 3] if wrap else 0
+            for i in order[:pre]:
+                complete(ins[i], assign[i], i, excs)
+            out = mk(form, given)
             eff_order = []
             for i in order:
                 if complete(ins[i], assign[i], i, excs):
                     eff_order.append(i)
             res.execs += 1
-            label = "f_%s n=%d %s order=%s" % (form, n, "".join(assign), order)
-            if check(res, label, form, out, assign, [list(order)], excs):
-                res.key(form, n, "".join(assign), order)
+            label = "f_%s n=%d %s order=%s%s" % (form, n, "".join(assign), order,
+                                                " (inputs given as f_map views, %d finished before the call)" % pre if wrap else "")
+            # inputs already finished at the call are seen in argument order
+            lin = list(sorted(order[:pre])) + list(order[pre:])
+            if check(res, label, form, out, assign, [lin], excs):
+                res.key(form, n, "".join(assign), order, wrap, pre)
             # after a failure / cancel decided the output nothing else is required of the inputs
             res.sample({"function": "f_" + form, "inputs": "".join(assign), "completion_order": order, "output": outcome_repr(outcome(out))}, limit=1)
         finally:
